@@ -392,6 +392,31 @@ structure FieldDef where
 /-- the extra fields of the struct, in declaration order (untagged ones have `print = clone = false`) -/
 abbrev ExtDef := List FieldDef
 
+/-- A struct field as `go/types` presents it to `createErrorDesc`: its name (for an embedded field
+the name of the embedded type), whether it is embedded, and its `gerror:"<name>,<options…>"` tag
+if it has one. -/
+structure RawField where
+  name : Str
+  embedded : Bool
+  tagName : Option Str
+  opts : List Str
+  zero : Str
+  deriving DecidableEq, Repr
+
+/-- `createField`: no `gerror` tag → the field is neither printed nor cloned; tag name `_` → the
+field's own name; `Clone`/`Print` = the option is listed.  Nothing here looks at `embedded`: an
+anonymous extra field is treated like a named one, under the name of its type. -/
+def createField (r : RawField) : FieldDef :=
+  match r.tagName with
+  | none => { name := r.name, printAs := r.name, print := false, clone := false, zero := r.zero }
+  | some n =>
+    { name := r.name, printAs := if n = ['_'] then r.name else n,
+      print := "print".toList ∈ r.opts, clone := "clone".toList ∈ r.opts, zero := r.zero }
+
+/-- the field loop of `createErrorDesc` over the extra fields (everything but the embedded `GError`,
+which has no `gerror` tag and only sets `embedsGError`) -/
+def parseFields (rs : List RawField) : ExtDef := rs.map createField
+
 /-- Go's `<` on strings (bytewise = by code point for valid UTF-8) as `≤` -/
 def strLe : Str → Str → Bool
   | [], _ => true
@@ -454,6 +479,11 @@ def printField (x : X) (f : FieldDef) : Str := f.printAs ++ ": ".toList ++ x.val
 message — in the order of the template -/
 def extError (d : ExtDef) (x : X) : Str :=
   errorHead x.base ++ (fieldsToPrint d).flatMap (printField x) ++ errorTail x.base
+
+/-- `Error()` of `fmt.Errorf("ctx: %w", inner)` and of `errors.Join(errors.New("x"), inner)` (also
+what `%+v` prints for them), given `inner.Error()` -/
+def wrapText (innerText : Str) : Str := "ctx: ".toList ++ innerText
+def joinText (innerText : Str) : Str := "x\n".toList ++ innerText
 
 /-- the generated `Error()` in full -/
 def extErrorFull (d : ExtDef) (x : X) (stackText : Str) : Str :=
